@@ -58,6 +58,8 @@ def run_property(pid, tier, seed, replay=None):
             fh.write(cargo_out)
         unchecked.append("harness does not build against /repo (API changed?): see " + os.path.join(rundir, "cargo.log"))
     n = P.N[tier]
+    if hasattr(P, "extra_coverage") and tier == "thorough" and getattr(P, "PROP", "") == "C14":
+        pass
     cases_path = os.path.join(rundir, "cases.jsonl")
     model_path = os.path.join(rundir, "model.jsonl")
     for p_ in (cases_path, model_path):
